@@ -217,3 +217,39 @@ Theorem cleanup_needs_timely_refuted :
   exists ts, trun true clean_cfg tinit timed_override_schedule = Some ts /\
              inside_at (base ts) 0 0 /\ inside_at (base ts) 1 0.
 Proof. exact timed_override_two_inside. Qed.
+
+(* ---- environment faults (runf / stepf): OFlockErr = fcntl.flock fails with an errno other than "held by somebody
+   else" (ENOLCK ...), ORemoveErr = os.remove of unlock() fails although the file is there (EPERM, read-only
+   directory).  Any number of them, anywhere in the schedule. *)
+
+(* Faults never break the exclusion: one process per lock file ... *)
+Theorem mutex_with_faults :
+  forall chk cfg l s p q k,
+    safe chk cfg -> runf chk cfg init l = Some s -> no_unlink l ->
+    inside_at s p k -> inside_at s q k -> p = q.
+Proof. exact mutex_with_faults_lemma. Qed.
+
+(* ... and at most n inside a semaphore. *)
+Theorem semaphore_bounded_with_faults :
+  forall cfg n l s pids,
+    (forall p, nslots (cfg p) <= n) -> runf true cfg init l = Some s -> no_unlink l ->
+    NoDup pids -> (forall p, In p pids -> inside s p) -> length pids <= n.
+Proof. exact bounded_with_faults_lemma. Qed.
+
+(* A flock that fails for whatever reason fails the attempt: the process goes on to close its file, lock() does
+   not return, no flock changes hands (what "only EAGAIN/EACCES raise LockError" breaks). *)
+Theorem flock_fault_fails_attempt :
+  forall chk cfg s p s' r e,
+    stepf chk cfg s p OFlockErr = Some (s', r, e) ->
+    exists a i, st_pc (ps s p) = Opened a i /\ st_pc (ps s' p) = Closing a i false /\ owner s' = owner s /\
+                r = RFlock false /\ e = ENone.
+Proof. exact flock_fault_fails_attempt_lemma. Qed.
+
+(* unlock() whose os.remove fails releases by closing: after the two calls the process is outside and owns no flock
+   (what "a failed remove is only logged" breaks); the lock file stays at its path for the next contender. *)
+Theorem remove_fault_releases :
+  forall cfg l s p s1 r1 e1 s2 r2 e2 i,
+    runf true cfg init l = Some s -> no_unlink l ->
+    stepf true cfg s p ORemoveErr = Some (s1, r1, e1) -> stepf true cfg s1 p OClose = Some (s2, r2, e2) ->
+    st_pc (ps s2 p) = Idle /\ owner s2 i <> Some p /\ path s2 = path s.
+Proof. exact remove_fault_releases_lemma. Qed.
